@@ -38,7 +38,8 @@ LEVEL_TEXT = ("Every decorated method found by introspection (39 machine + 7 "
               "exits by exception at every depth, application blocks must "
               "send the stop signal, and after discover_connections every "
               "datagram must leave by the connection of the board holding "
-              "its target.")
+              "its target."
+              ' Boards connected after the first discovery (and after a survey of the machine); commands issued from before_close functions.')
 LEVEL_NOTE = ("Trusted: the machine model, the per-method table of where the "
               "resolved values appear on the wire (from the method "
               "docstrings), the independent tile model of C19.")
